@@ -63,7 +63,7 @@ DIRECT_OPS = ['map', 'starmap', 'filter', 'accumulate', 'slice', 'partition', 'p
 
 PROFILES = {
     # property -> (node pool, weights of modes, options)
-    'C01': dict(pool=SYNC_OPS, modes=['loopless', 'loopless', 'async', 'threaded'], md=0.3, sinks=['sync'], feedback=True, forward=True),
+    'C01': dict(pool=SYNC_OPS, collect_cache=True, modes=['loopless', 'loopless', 'async', 'threaded'], md=0.3, sinks=['sync'], feedback=True, forward=True),
     'C10': dict(pool=SYNC_OPS + ASYNC_LOSSLESS + LOSSY, modes=['loopless', 'async', 'async', 'threaded'], md=0.85, falsy_dedup=True,
                 sinks=['sync', 'native', 'tornado', 'future']),
     'C02': dict(pool=ASYNC_LOSSLESS + ['map', 'filter', 'zip', 'union', 'accumulate', 'sliding_window', 'partition', 'flatten',
@@ -85,7 +85,7 @@ PROFILES = {
                 sinks=['native', 'tornado', 'future', 'sync'], bursts=True),
     'C13': dict(pool=['rate_limit', 'delay', 'map', 'filter', 'union', 'buffer'], need=['rate_limit', 'delay'], stalls=True,
                 modes=['async', 'async', 'threaded'], md=0.2, sinks=['sync', 'native', 'tornado', 'future'], bursts=True),
-    'C14': dict(pool=['latest', 'map', 'filter', 'union'], need=['latest'], modes=['async', 'async', 'threaded'], md=0.4, stalls=True,
+    'C14': dict(pool=['latest', 'map', 'filter', 'union'], need=['latest'], feedback_sink=True, modes=['async', 'async', 'threaded'], md=0.4, stalls=True,
                 sinks=['native', 'tornado', 'future', 'sync'], bursts=True),
     'C16': dict(pool=DIRECT_OPS + ['rate_limit'], modes=['loopless', 'async', 'async', 'threaded'], md=1.0, refs=True, forward=True,
                 sinks=['sync', 'native', 'tornado', 'future']),
@@ -323,7 +323,10 @@ class G:
             return True
         if op == 'collect':
             p = self.pick(anyp)
-            self.add({'op': 'collect', 'up': [p]}, ('var', 0, self.types[p]))
+            node = {'op': 'collect', 'up': [p]}
+            if self.pf.get('collect_cache') and self.chance(0.3):
+                node['cache_maxlen'] = self.pick([1, 2, 3])
+            self.add(node, ('var', 0, self.types[p]))
             return True
         if op in ('union', 'zip', 'combine_latest', 'zip_latest'):
             if len(anyp) < 2:
@@ -523,6 +526,28 @@ class G:
                 n, ts = self.pick(cands)
                 n['kind'] = 'emit_into'
                 n['target'] = self.pick(ts)
+        if pf.get('feedback_sink') and mode == 'async' and not feedback and self.chance(0.3):
+            # a consumer below `latest` that reacts to an (original) element by emitting one follow-up element into
+            # the entry point above it: the follow-up arrives at latest while latest is in the middle of delivering
+            def ancestors2(nid, acc):
+                for u in self.graph[nid].get('up', []):
+                    if u not in acc:
+                        acc.add(u)
+                        ancestors2(u, acc)
+                return acc
+            cands = []
+            for n in self.graph:
+                if n['op'] == 'sink' and n.get('kind', 'sync') == 'sync' and self.types.get(n['up'][0]) == INT:
+                    anc = ancestors2(n['id'], set())
+                    if any(self.graph[a]['op'] == 'latest' for a in anc):
+                        ents = [a for a in anc if self.graph[a]['op'] == 'source']
+                        if ents:
+                            cands.append((n, ents))
+            if cands:
+                n, ents = self.pick(cands)
+                n['kind'] = 'emit_into'
+                n['target'] = self.pick(ents)
+                n['back'] = True
         if mode == 'async':
             # an entry that is only ever joined into the pipeline may be a plain Stream(): it inherits loop and
             # mode from the pipeline it extends (C19) and must then behave like every other entry
